@@ -206,6 +206,28 @@ def run(F, R):
                 [list(k) for k in other], [w for v_ in other.values() for _, w in v_][:2]))
 
 
+def publication_rule(F, R, rule):
+    """O3's first clause under another rule id: the device-visible available index is written by plain stores of the queue type (at
+    least one, none elsewhere) - not by a read-modify-write such as fetch_max, which stops publishing once the 16-bit index wraps."""
+    M = model(F)
+    M.require_rings()
+    writers = set()
+    rmw = []
+    for b in F.bodies.values():
+        if not F.handwritten(b):
+            continue
+        sg0 = supergraph(F, b['id'], tag='flat', max_depth=0)
+        for a in device_accesses(sg0, M):
+            if a.area == 'avail.idx' and a.kind == 'store':
+                writers.add(b['id'])
+            elif a.area == 'avail.idx' and a.kind not in ('load', 'store'):
+                rmw.append((b['id'], a.kind))
+    allowed = set(w for w in writers if F.bodies[w].get('impl_adt') == M.queue_adt)
+    R.check(writers <= allowed and len(writers) >= 1 and not rmw, rule, 'avail.idx:published-by-store', '', 'writers of avail.idx: %s' % sorted(writers),
+            'the available index is not published by a plain store of the queue type (stores: %s, other accesses: %s): submissions after the index wraps '
+            '(or all of them) never become visible to the device although the driver notifies it' % (sorted(writers), rmw[:2]))
+
+
 def monotone_value(sg, ist, v):
     """The stored value must be wrapping_add(previous trusted copy, 1) where the trusted copy is a private field."""
     v0 = v
